@@ -83,7 +83,18 @@ def tyfull(t):
     if "qualified_path" in t:
         return "qpath:" + t["qualified_path"].get("name", "?")
     if "impl_trait" in t:
-        return "impl " + "+".join((b.get("trait_bound", {}).get("trait", {}).get("path", "?") + "<" + ",".join(tyfull(x["type"]) for x in ((b.get("trait_bound", {}).get("trait", {}).get("args") or {}).get("angle_bracketed") or {}).get("args", []) if "type" in x) + ">") for b in t["impl_trait"])
+        parts = []
+        for b in t["impl_trait"]:
+            tr = b.get("trait_bound", {}).get("trait", {})
+            ab = (tr.get("args") or {}).get("angle_bracketed") or {}
+            inner = [tyfull(x["type"]) for x in ab.get("args", []) if "type" in x]
+            # associated type bindings (Iterator<Item = ..>): what the iterator yields
+            for c in ab.get("constraints", []):
+                ty = ((c.get("binding") or {}).get("equality") or {}).get("type")
+                if ty:
+                    inner.append("%s=%s" % (c.get("name", "?"), tyfull(ty)))
+            parts.append(tr.get("path", "?") + "<" + ",".join(inner) + ">")
+        return "impl " + "+".join(parts)
     return tyname(t)
 
 def api_methods(doc):
